@@ -54,6 +54,16 @@ func interpretRef(s Store, name string, excludeTag bool) (ref string, sum []byte
 	if err != nil {
 		return
 	}
+	// A ref named exactly like the argument wins over a longer ref that merely
+	// ends with it ("x" must not resolve to heads/a/x when heads/x exists).
+	for _, prefix := range []string{"", "heads/", "tags/", "remotes/"} {
+		if excludeTag && prefix == "tags/" {
+			continue
+		}
+		if sum, ok := m[prefix+name]; ok && !(excludeTag && strings.HasPrefix(prefix+name, "tags/")) {
+			return prefix + name, sum, nil
+		}
+	}
 	sl := make([]string, 0, len(m))
 	for k := range m {
 		if excludeTag && strings.HasPrefix(k, "tags/") {
